@@ -81,7 +81,9 @@ class FunctionTranslator:
                              and n.value.func.attr == "split"):       # str.split() never returns an empty list
                 self.site("<subscript 0>", stack)
             elif isinstance(n, ast.BinOp) and isinstance(n.op, ast.Sub) \
-                    and any("created" in ast.unparse(x) or "modified" in ast.unparse(x) for x in (n.left, n.right)):
+                    and any("created" in ast.unparse(x) or "modified" in ast.unparse(x) for x in (n.left, n.right)) \
+                    and not all(isinstance(x, ast.Call) and ast.unparse(x.func) == "_naive_utc"
+                                for x in (n.left, n.right)):      # both operands normalised to naive UTC
                 self.site("<datetime subtraction>", stack)
             elif isinstance(n, (ast.Lambda, ast.Await, ast.Yield, ast.YieldFrom, ast.NamedExpr)):
                 raise TranslationError(f"{self.module}.{self.fn}: unsupported expression {type(n).__name__}")
